@@ -1,4 +1,4 @@
-CONSTANTS NC = 2 UseLock = TRUE MaxOps = 2 SchedLen = 8 OpFilter = "all"
+CONSTANTS NC = 2 UseLock = TRUE MaxOps = 2 SchedLen = 8 OpFilter = "all" DeferUnlock = TRUE
 SPECIFICATION Spec
 INVARIANTS Atomic MutualExclusion
 CHECK_DEADLOCK FALSE
